@@ -1122,11 +1122,26 @@ func (e *Engine) overlay(r io.Reader, basePath string, asNew bool) error {
 		defer e.mu.Unlock()
 
 		var newFiles []string
-		tr := tar.NewReader(r)
+		// archive/tar reports a plain io.EOF both at the end-of-archive marker
+		// and when the stream just ends where a header would start. A backup
+		// that was cut at a file boundary, or that is empty because the sender
+		// failed before it wrote anything, must not be installed as if it
+		// were complete.
+		cr := intar.NewCompleteReader(r)
+		tr := tar.NewReader(cr)
 		for {
-			if fileName, err := e.readFileFromBackup(tr, basePath, asNew); err == io.EOF {
-				break
-			} else if err != nil {
+			fileName, err := e.readFileFromBackup(tr, basePath, asNew)
+			if err == io.EOF {
+				if cr.Complete() {
+					break
+				}
+				err = intar.ErrIncompleteArchive
+			}
+			if err != nil {
+				// Nothing has been installed yet, remove what was copied so far.
+				for _, f := range newFiles {
+					os.Remove(f)
+				}
 				return nil, err
 			} else if fileName != "" {
 				newFiles = append(newFiles, fileName)
@@ -1262,11 +1277,13 @@ func (e *Engine) readFileFromBackup(tr *tar.Reader, shardRelativePath string, as
 
 	// Copy from archive to the file.
 	if _, err := io.CopyN(f, tr, hdr.Size); err != nil {
+		os.Remove(tmp)
 		return "", err
 	}
 
 	// Sync to disk & close.
 	if err := f.Sync(); err != nil {
+		os.Remove(tmp)
 		return "", err
 	}
 
